@@ -302,6 +302,7 @@ Section Main.
     intros Hj W HK t src pt Hs Hst Hr Hok. destruct pt; try discriminate.
     - (* array *)
       destruct j; try discriminate. simpl in Hs, Hr, Hok, W, HK.
+      apply andb_true_iff in Hs. destruct Hs as [_ Hs].
       apply andb_true_iff in Hr. destruct Hr as [Hr _].
       rewrite forallb_forall in Hr, Hok, W. rewrite Forall_forall in HK.
       assert (E : forall x, In x l -> decode ctx x pt = DSet (F pt x) /\ good x pt (F pt x)).
@@ -408,6 +409,7 @@ Section Main.
     - (* array *)
       destruct (array_of_scalars ctx 8 (TArray a pt)) eqn:A; auto.
       destruct j; try discriminate. simpl in Hs, Hok, W, HK. cbn [rts_simple] in Hr. rewrite A in Hr.
+      apply andb_true_iff in Hs. destruct Hs as [_ Hs].
       apply andb_true_iff in Hr. destruct Hr as [Hr Hr2]. simpl in Hr2.
       apply andb_true_iff in Hr2. destruct Hr2 as [Hsrc Hr2].
       rewrite forallb_forall in Hr, Hok, W. rewrite Forall_forall in HK.
